@@ -69,9 +69,36 @@ let () =
            let b = 3 + 4 * ne + 4 * k in
            { x_key = n_of_int (geti b); x_opc = n_of_int (geti (b+1)); x_line = n_of_int (geti (b+2));
              x_preset = opt (geti (b+3)) }) in
+         Buffer.add_char buf 'w'; Buffer.add_char buf (b2c (wf_excb items entries)); Buffer.add_char buf ' ';
          (match add_setup_except entries items with
           | Err c -> Buffer.add_string buf ("E" ^ string_of_int (int_of_nat c))
           | Ok l -> Buffer.add_string buf (join ";" (fun x -> si x.x_key ^ "," ^ si x.x_opc ^ "," ^ si x.x_line ^ "," ^ sopt x.x_preset) l))
+       | "C" ->
+         (* C <minor> <n_entries> <n_items>  entries: start end target lasti   raw items: key opc line arg
+            CPython's raw instructions + exception table -> add_setup_except -> build_ops *)
+         let minor = n_of_int (geti 1) in
+         let ne = geti 2 and ni = geti 3 in
+         let entries = List.init ne (fun k ->
+           let b = 4 + 4 * k in
+           { e_start = n_of_int (geti b); e_end = n_of_int (geti (b+1)); e_target = n_of_int (geti (b+2));
+             e_lasti = (geti (b+3) = 1) }) in
+         let args = Hashtbl.create 64 in
+         let items = List.init ni (fun k ->
+           let b = 4 + 4 * ne + 4 * k in
+           if geti (b+3) >= 0 then Hashtbl.replace args (geti b) (geti (b+3));
+           { x_key = n_of_int (geti b); x_opc = n_of_int (geti (b+1)); x_line = n_of_int (geti (b+2)); x_preset = None }) in
+         Buffer.add_char buf 'w'; Buffer.add_char buf (b2c (wf_excb items entries)); Buffer.add_char buf ' ';
+         (match (if ne = 0 then Ok items else add_setup_except entries items) with
+          | Err c -> Buffer.add_string buf ("E" ^ string_of_int (int_of_nat c))
+          | Ok l ->
+            let its = List.map (fun x ->
+              let k = int_of_n x.x_key in
+              { ioff = x.x_key; iopc = x.x_opc;
+                iarg = (match x.x_preset with Some _ -> None | None -> (match Hashtbl.find_opt args k with Some a -> Some (n_of_int a) | None -> None));
+                ipreset = x.x_preset }) l in
+            (match build_ops minor its with
+             | Err c -> Buffer.add_string buf ("E" ^ string_of_int (int_of_nat c))
+             | Ok ops -> Buffer.add_string buf (join ";" (fun o -> si o.idx ^ "," ^ si o.opc ^ "," ^ sopt o.target ^ "," ^ sopt o.next ^ "," ^ sopt o.prev) ops)))
        | t -> failwith ("bad token " ^ t));
       print_endline (Buffer.contents buf)
     done
